@@ -36,7 +36,7 @@ CONFIGS = {
         "mcache": [(5, "wide")], "ping": [(5, "wide")],
     },
 }
-C17_WALKERS = ["name", "dnsmsg", "nbns"]
+C17_WALKERS = ["name", "dnsmsg", "nbns", "mcache"]
 ALL_WALKERS = ["ndp", "lldp", "hbh", "dhcp", "nbns", "icmp4", "ssdp", "arp", "llc", "name", "dnsmsg", "mcache", "ping"]
 
 
